@@ -37,7 +37,8 @@ def case_strategy(draw):
         # the smallest well-posed problem: one breakpoint interval and exactly order (or order + 1) positively weighted points,
         # among a few points without weight - the fit is the polynomial through (or closest to) the good points
         nord = draw(st.sampled_from([4, 3, 2, 5]))
-        ngood = nord + draw(st.sampled_from([0, 0, 1]))
+        # ... or fewer good points than the order (D50): nothing can be fitted, but the mask must still tell the weightless points apart
+        ngood = max(2, nord + draw(st.sampled_from([0, 0, 1, -1, -2])))
         nz = draw(st.integers(1, 6))
         n = ngood + nz
         x = [2.0 + 5.0 * (i + 0.8 * draw(uf) * 0.5) / n for i in range(n)]
